@@ -62,8 +62,11 @@ type MCmd struct {
 	LongDesc S      `json:"longDesc"`
 	SubOpt   bool   `json:"subOpt"`
 	Aliases  []S    `json:"aliases"`
-	Hidden   bool   `json:"hidden"`
-	Opts     []MOpt `json:"opts"`
+	Hidden   bool     `json:"hidden"`
+	Opts     []MOpt   `json:"opts"`   // the command's own options, then those of its nested groups, pre-order
+	Groups   []MGroup `json:"groups"` // its nested groups, pre-order
+	NSub     int      `json:"nsub"`   // number of sub-commands
+	NArgs    int      `json:"nargs"`  // number of positional arguments
 }
 
 type MArg struct {
@@ -140,27 +143,24 @@ func runDecl(sc *DeclScn) *DeclObs {
 			// errors of the parse itself (a required option is missing) are not setup errors
 			obs.Err = "none"
 		}
-		var walk func(g *flags.Group, top bool)
-		walk = func(g *flags.Group, top bool) {
+		var walk func(g *flags.Group, opts *[]MOpt, groups *[]MGroup)
+		walk = func(g *flags.Group, opts *[]MOpt, groups *[]MGroup) {
 			for _, o := range g.Options() {
-				obs.Opts = append(obs.Opts, mopt(o))
+				*opts = append(*opts, mopt(o))
 			}
 			for _, sg := range g.Groups() {
-				if !top {
-					obs.Groups = append(obs.Groups, MGroup{Desc: toS(sg.ShortDescription), LongDesc: toS(sg.LongDescription), Ns: toS(sg.Namespace), EnvNs: toS(sg.EnvNamespace), Hidden: sg.Hidden})
-				}
-				walk(sg, false)
+				*groups = append(*groups, MGroup{Desc: toS(sg.ShortDescription), LongDesc: toS(sg.LongDescription), Ns: toS(sg.Namespace), EnvNs: toS(sg.EnvNamespace), Hidden: sg.Hidden})
+				walk(sg, opts, groups)
 			}
 		}
 		// p.Command.Group -> "Application Options" -> nested groups
 		for _, g := range p.Command.Group.Groups() {
-			walk(g, false)
+			walk(g, &obs.Opts, &obs.Groups)
 		}
 		for _, c := range p.Commands() {
-			mc := MCmd{Name: toS(c.Name), Desc: toS(c.ShortDescription), LongDesc: toS(c.LongDescription), SubOpt: c.SubcommandsOptional, Aliases: toSs(c.Aliases), Hidden: c.Hidden, Opts: []MOpt{}}
-			for _, o := range c.Group.Options() {
-				mc.Opts = append(mc.Opts, mopt(o))
-			}
+			mc := MCmd{Name: toS(c.Name), Desc: toS(c.ShortDescription), LongDesc: toS(c.LongDescription), SubOpt: c.SubcommandsOptional, Aliases: toSs(c.Aliases), Hidden: c.Hidden,
+				Opts: []MOpt{}, Groups: []MGroup{}, NSub: len(c.Commands()), NArgs: len(c.Args())}
+			walk(c.Group, &mc.Opts, &mc.Groups)
 			obs.Cmds = append(obs.Cmds, mc)
 		}
 		for _, a := range p.Args() {
@@ -363,17 +363,26 @@ func genDecl(r *rand.Rand, id int) *DeclScn {
 	for i := 0; i < n; i++ {
 		sc.Fields = append(sc.Fields, mk(used))
 	}
-	if chance(r, 0.5) { // nested group, with or without namespace; collisions through the namespace are likely by construction of the pools
+	// nested groups to depth three, with or without namespaces; collisions through the namespaces are likely by construction of
+	// the pools (a long name "x.alpha" / "a.al" next to group x > option alpha), also across an un-namespaced group inside a namespaced one
+	var genGroup func(depth int, outer map[string]bool) FieldSpec
+	genGroup = func(depth int, outer map[string]bool) FieldSpec {
 		gu := map[string]bool{}
 		if chance(r, 0.5) {
-			gu = used // share the bookkeeping: no direct collisions
+			gu = outer // share the bookkeeping: no direct collisions
 		}
 		var sub []FieldSpec
-		for i, m := 0, 1+r.Intn(3); i < m; i++ {
+		for i, m := 0, r.Intn(3); i < m; i++ {
+			sub = append(sub, mk(gu))
+		}
+		for depth < 3 && chance(r, 0.35) {
+			sub = append(sub, genGroup(depth+1, gu))
+		}
+		if len(sub) == 0 {
 			sub = append(sub, mk(gu))
 		}
 		kvs := [][2]string{{"group", pick(r, []string{"Nested", "Grp é", "x"})}}
-		if chance(r, 0.6) {
+		if chance(r, 0.55) {
 			kvs = append(kvs, [2]string{"namespace", pick(r, []string{"x", "a", "ns", "al"})})
 		}
 		if chance(r, 0.3) {
@@ -386,13 +395,24 @@ func genDecl(r *rand.Rand, id int) *DeclScn {
 			kvs = append(kvs, [2]string{"description", pick(r, tagValues)})
 		}
 		fno++
-		sc.Fields = append(sc.Fields, FieldSpec{Name: toS("G" + itoa(fno)), FType: "group", Tag: toS(joinTag(r, kvs)), Sub: sub})
+		return FieldSpec{Name: toS("G" + itoa(fno)), FType: "group", Tag: toS(joinTag(r, kvs)), Sub: sub}
 	}
-	if chance(r, 0.4) {
+	var genPos func() FieldSpec
+	var genCmd func(depth int) FieldSpec
+	genCmd = func(depth int) FieldSpec {
 		cu := map[string]bool{}
 		var sub []FieldSpec
 		for i, m := 0, r.Intn(3); i < m; i++ {
 			sub = append(sub, mk(cu))
+		}
+		if chance(r, 0.3) {
+			sub = append(sub, genGroup(1, cu))
+		}
+		if chance(r, 0.2) {
+			sub = append(sub, genPos())
+		}
+		if depth < 2 && chance(r, 0.25) {
+			sub = append(sub, genCmd(depth+1))
 		}
 		kvs := [][2]string{{"command", pick(r, []string{"add", "naïve", "x y"})}}
 		for i, m := 0, r.Intn(3); i < m; i++ {
@@ -411,9 +431,9 @@ func genDecl(r *rand.Rand, id int) *DeclScn {
 			kvs = append(kvs, [2]string{"hidden", "1"})
 		}
 		fno++
-		sc.Fields = append(sc.Fields, FieldSpec{Name: toS("C" + itoa(fno)), FType: "command", Tag: toS(joinTag(r, kvs)), Sub: sub})
+		return FieldSpec{Name: toS("C" + itoa(fno)), FType: "command", Tag: toS(joinTag(r, kvs)), Sub: sub}
 	}
-	if chance(r, 0.4) {
+	genPos = func() FieldSpec {
 		var sub []FieldSpec
 		for i, m := 0, 1+r.Intn(3); i < m; i++ {
 			fno++
@@ -438,13 +458,22 @@ func genDecl(r *rand.Rand, id int) *DeclScn {
 			kvs = append(kvs, [2]string{"required", "yes"})
 		}
 		fno++
-		sc.Fields = append(sc.Fields, FieldSpec{Name: toS("P" + itoa(fno)), FType: "posargs", Tag: toS(joinTag(r, kvs)), Sub: sub})
+		return FieldSpec{Name: toS("P" + itoa(fno)), FType: "posargs", Tag: toS(joinTag(r, kvs)), Sub: sub}
+	}
+	for chance(r, 0.5) && len(sc.Fields) < 8 {
+		sc.Fields = append(sc.Fields, genGroup(1, used))
+	}
+	for chance(r, 0.4) && len(sc.Fields) < 10 {
+		sc.Fields = append(sc.Fields, genCmd(1))
+	}
+	if chance(r, 0.4) {
+		sc.Fields = append(sc.Fields, genPos())
 	}
 	// one malformed tag somewhere, now and then
 	if chance(r, 0.25) {
 		k := r.Intn(len(sc.Fields))
 		f := &sc.Fields[k]
-		if len(f.Sub) > 0 && chance(r, 0.5) {
+		for len(f.Sub) > 0 && chance(r, 0.5) {
 			f = &f.Sub[r.Intn(len(f.Sub))]
 		}
 		f.Tag = toS(malform(r, f.Tag.String()))
